@@ -336,7 +336,13 @@ func c10Direct(c *fw.Ctx, i int) {
 	fs.KeepOps = false
 	hls.VerifSetFsl(fs)
 	cs.cfg.OutPath = "/hls-out/"
-	rig := &c10Rig{c: c, fs: fs, cfg: cs.cfg, name: fmt.Sprintf("h%d", i), closed: map[string][]byte{}}
+	// stream names are the client's choice: every fourth case uses one with characters that mean
+	// something to a format string, a URL or a path component
+	name := fmt.Sprintf("h%d", i)
+	if i%4 == 1 {
+		name = fmt.Sprintf([]string{"h%d%%20b", "h%d%%s%%d", "h%d-x.y", "h%d 空格"}[(i/4)%4], i)
+	}
+	rig := &c10Rig{c: c, fs: fs, cfg: cs.cfg, name: name, closed: map[string][]byte{}}
 	rig.dir = filepath.Join(cs.cfg.OutPath, rig.name)
 	fs.OnOp = rig.onOp
 	rig.desc = fmt.Sprintf("fragment_duration_ms=%d fragment_num=%d delete_threshold=%d cleanup_mode=%d", cs.cfg.FragmentDurationMs, cs.cfg.FragmentNum, cs.cfg.DeleteThreshold, cs.cfg.CleanupMode)
@@ -469,7 +475,7 @@ func init() {
 			return 160
 		},
 		CaseTimeout: func(string) time.Duration { return 3 * time.Minute },
-		Rule: "9 of 10 cases: the real Rtmp2MpegtsRemuxer and hls.Muxer wired as logic.Group wires them, on an instrumented in-memory file-system layer; fragment_duration_ms ∈ {500,700,1000,1500,2700,3000,4400} × fragment_num 1–6 × delete_threshold 0–3 × cleanup_mode 0–2; 1–3 incarnations of the same name per case; streams AVC/HEVC/none × AAC/none with frame intervals 20–250 ms, GOP lengths at, just above, half of and unrelated to the fragment target or no key frame at all (forced splits), timestamp start near 0 / 0xFFFFFF / 2^32, forward jump, backward jump, sparse audio. After EVERY file-system operation the oracle inspects the directory: live playlist parses (strict RFC 8216 subset parser), media sequence never decreases across versions and incarnations, TARGETDURATION ≥ round(every listed duration) (exact x.5 accepted either way), every listed segment exists, is a multiple of 188 bytes, starts with PAT and PMT, and (with video, no DISCONTINUITY tag) with a random-access video frame; every segment listed in the current or previous delete_threshold versions still exists. No version written while the stream is live carries ENDLIST. At each end: one trailing ENDLIST; the segments closed in this incarnation, minus their PAT/PMT, equal the TS packets handed to the muxer since the first segment was created, exactly once and in order; for cleanup_mode ≠ 2 the record playlist parses and lists every segment ever produced in order. 1 of 10 cases: whole server with cleanup_mode 1/2 and a second publisher of the same name before or after the delayed directory cleanup — same per-operation oracle while live, directory removed after the last end. cell = configuration.",
+		Rule: "9 of 10 cases: the real Rtmp2MpegtsRemuxer and hls.Muxer wired as logic.Group wires them, on an instrumented in-memory file-system layer; fragment_duration_ms ∈ {500,700,1000,1500,2700,3000,4400} × fragment_num 1–6 × delete_threshold 0–3 × cleanup_mode 0–2; 1–3 incarnations of the same name per case (every fourth name carries `%`, `.`, `-` or non-ASCII characters); streams AVC/HEVC/none × AAC/none with frame intervals 20–250 ms, GOP lengths at, just above, half of and unrelated to the fragment target or no key frame at all (forced splits), timestamp start near 0 / 0xFFFFFF / 2^32, forward jump, backward jump, sparse audio. After EVERY file-system operation the oracle inspects the directory: live playlist parses (strict RFC 8216 subset parser), media sequence never decreases across versions and incarnations, TARGETDURATION ≥ round(every listed duration) (exact x.5 accepted either way), every listed segment exists, is a multiple of 188 bytes, starts with PAT and PMT, and (with video, no DISCONTINUITY tag) with a random-access video frame; every segment listed in the current or previous delete_threshold versions still exists. No version written while the stream is live carries ENDLIST. At each end: one trailing ENDLIST; the segments closed in this incarnation, minus their PAT/PMT, equal the TS packets handed to the muxer since the first segment was created, exactly once and in order; for cleanup_mode ≠ 2 the record playlist parses and lists every segment ever produced in order. 1 of 10 cases: whole server with cleanup_mode 1/2 and a second publisher of the same name before or after the delayed directory cleanup — same per-operation oracle while live, directory removed after the last end. cell = configuration.",
 		Assumptions: []string{"the operation granularity is that of naza's IFileSystemLayer (create, write, close, rename, remove, writefile)", "segments are captured at their close operation, so a later deletion does not hide them from the exactly-once comparison"},
 		MinCells: 20,
 		Run: func(c *fw.Ctx, i int) {
